@@ -333,7 +333,7 @@ def main(tier, write_baseline=False):
         if o["name"] in seen:
             continue
         seen.add(o["name"])
-        run.violation(o["name"], "obligation refuted by %s on path %s" % (o["backend"], " ".join(o["trace"])), failing_input=(handle_value_replay() if "_handle_value" in o["name"] else (set_param_values_replay() if "_set_param_values" in o["name"] else None)) or common.model_replay("contracts.C14", o), solver_output={"model": o["model"], "smt2": (o["smt2"] or "")[:4000]})
+        run.violation(o["name"], "obligation refuted by %s on path %s" % (o["backend"], " ".join(o["trace"])), failing_input=(handle_value_replay() if "_handle_value" in o["name"] else (set_param_values_replay() if "_set_param_values" in o["name"] else (common.optional_iff_not_required_replay() if "optional-iff-not-required" in o["name"] else None))) or common.model_replay("contracts.C14", o), solver_output={"model": o["model"], "smt2": (o["smt2"] or "")[:4000]})
     for key, (kind, payload, what) in sorted(fails.items(), key=str):
         cls = "|".join(str(k) for k in key)
         run.violation("C14/bounded/%s" % key[0], "[class %s] %s" % (cls, what), key={"class": cls}, failing_input={"kind": kind, "input": json.loads(json.dumps(payload, default=str))})
